@@ -199,6 +199,7 @@ c.ensures('template', "result is True ==> len(emitted(self)) == 1 and instr(emit
 c.ensures('a-macro-always-has-a-value', "result is True ==> emitted(self)[0].param1 is not None")
 c = method('_routine_definition', serves=('C06', 'C05', 'C01'), setup_extra=lambda b, pr: {'name': b.sym('str', 'routine_name')})
 c.ensures('no-nested-definition', 'old(self._context._in_routine) ==> falsy(result)')
+c.ensures('only-at-the-top-level-of-the-script', 'old(self._nesting) > 0 ==> falsy(result)')
 c.ensures('template-shape', "result is True ==> len(emitted(self)) == 3 and instr(emitted(self)[0], 'ROUTINE') and instr(emitted(self)[-1], 'END') and is_seg(emitted(self)[1], 'command')")
 c.ensures('template-names', "result is True ==> emitted(self)[0].param0 is name and emitted(self)[-1].param0 is name")
 c.ensures('leaves-the-routine-scope', 'result is True ==> not self._context._in_routine')
@@ -206,7 +207,8 @@ c.ensures('leaves-the-routine-scope', 'result is True ==> not self._context._in_
 # ---- dispatch
 c = method('_command', serves=('C06', 'C01'), uses=('parser', 'dispatch'))
 c.ensures('one-statement', "result is True ==> len(emitted(self)) == 1 and is_seg(emitted(self)[0])")
-c = method('command_seq', serves=('C06', 'C01'))
+c = method('command_seq', serves=('C06', 'C01', 'C05'))
+c.ensures('nested-commands-are-parsed-one-level-down', "(ghost('nesting_at_last_phrase') is None or ghost('nesting_at_last_phrase') == old(self._nesting) + 1) and self._nesting == old(self._nesting)")
 
 
 # ---- matrix operands (C15 templates)
@@ -268,7 +270,7 @@ c.ensures('loop-context-popped', 'result is True ==> len(context_stack._loop_sta
 
 # ---- Parser.parse: every compile starts afresh (C17) and ends in accept or a message (C06)
 for pre in ('UNKNOWN', 'EOF', 'NAME'):
-    c = contract(P, 'Parser.parse', serves=['C06', 'C17'], uses=('parser', 'dispatch'), name='Parser.parse[cursor was on %s]' % pre)
+    c = contract(P, 'Parser.parse', serves=['C06', 'C17', 'C05'], uses=('parser', 'dispatch'), name='Parser.parse[cursor was on %s]' % pre)
     def _setup(b, case, pre=pre):
         pr = PL.parser(b, first_token=PL.concrete_token(b.I, pre, 'x' if pre == 'NAME' else ''))
         pr.attrs['_error_output'] = b.sym('str', 'old_errors')
@@ -280,6 +282,7 @@ for pre in ('UNKNOWN', 'EOF', 'NAME'):
     c.setup(_setup)
     c.ensures('accept-or-message', 'result is True or (falsy(result) and errs() > old(errs()))')
     c.ensures('cursor-starts-on-the-first-token-of-the-new-text', 'tokens_consumed() >= 1')
+    c.ensures('top-level-commands-are-at-nesting-0', "self._nesting == 0 and (ghost('nesting_at_last_phrase') is None or ghost('nesting_at_last_phrase') == 0)")
     c.ensures('code-generator-and-context-were-cleared', "ghost('cleared') is not None and len(ghost('cleared')) >= 2")
 
 c = method('next_token', serves=('C06',), progress=False)
